@@ -78,6 +78,7 @@ TG_PARTS = {
     "C08": ([], ["spaceTg"], ["C08_", "C12_tierwise_", "C12_space_"]),
     "C09": ([], ["editTg", "appendTg"], ["C09_", "C12_tierwise_"]),
     "C10": ([], ["mergeTg"], ["C10_"]),
+    "C14": ([], ["alignTg"], ["C14_"]),
     "C13": (["addTier", "removeTier", "renameTier", "replaceTier"],
             ["cropTg", "eraseTg", "spaceTg", "editTg", "appendTg", "mergeTg", "newTg", "saveTg", "validateTg"], ["C13_"]),
 }
